@@ -59,6 +59,14 @@ class FPSelfCompare:
                 R['paths'] += len(results)
                 R['stats']['branches'] += eng.stats['branches']
                 for res in results:
+                    if res.status == 'exc':
+                        # lazily forked rejection paths of the constructors (value <= 0): infeasible in the stated range
+                        R['exc_paths'] += 1
+                        r0, _v, _w = fp.solve_race(res.path, eng._vars, self.cap * 2)
+                        R['stats']['queries'] += 1
+                        if r0 != 'unsat':
+                            R['inconclusive'].append('FP path raising %r in %s %s->%s is %s' % (res.exc, kind, u1, u2, r0))
+                        continue
                     if res.status != 'ok':
                         R['inconclusive'].append('FP path %s in %s %s->%s: %r' % (res.status, kind, u1, u2, res.exc))
                         continue
